@@ -150,3 +150,32 @@ func NewRoundDB(tag string) (sopx.DB, string) {
 }
 
 var Ctx = context.Background()
+
+// ReportDeaths classifies dead workers: a Go panic / fatal error with a sop frame on the stack is a
+// violation (the library crashed the process); a watchdog timeout or anything else is inconclusive.
+func ReportDeaths(r interface {
+	Violation(string, any)
+	Inconclusive(string)
+	Set(string, any)
+}, id string, died []string) {
+	for _, d := range died {
+		r.Set("worker_death", d)
+		if (strings.Contains(d, "panic:") || strings.Contains(d, "fatal error:")) && strings.Contains(d, "github.com/sharedcode/sop") && !strings.Contains(d, "exit 124") {
+			site := "unknown"
+			for _, ln := range strings.Split(d, "\n") {
+				if strings.HasPrefix(ln, "github.com/sharedcode/sop") {
+					site = strings.SplitN(strings.TrimPrefix(ln, "github.com/sharedcode/sop"), "(", 2)[0]
+					site = strings.Trim(strings.ReplaceAll(site, ":", "."), "/.")
+					break
+				}
+			}
+			r.Violation(id+":process-crash:"+site+":panic-in-library", d)
+			continue
+		}
+		if strings.Contains(d, "exit 124") {
+			r.Inconclusive("worker-watchdog-timeout")
+		} else {
+			r.Inconclusive("worker-died")
+		}
+	}
+}
